@@ -411,8 +411,33 @@ fn recorded_torus_cover(ctx: &mut Ctx) {
     }
     let s = RS::from_ops(ops);
     let inp = Input { name: "pseudo-toroidal cover of the dual of corpus symbol <553.3:4 3:2 4,1 2 3 4,3 4,2 4:4 6,2 6,4> in the recorded numbering".into(), s, ptc: true, rigid: true, corpus: true, known: Some((vec![0, 0, 0], vec![1, 7, 13])) };
+    // reference: the result for the same cover in the numbering the crate produces, default schedule
+    let ref_key = corpus().into_iter().find(|(t, _)| t.starts_with("<553.3:")).and_then(|(_, s)| ptc_of(&s.dual())).and_then(|c| match run_simplify(&c) {
+        Ok(Some(out)) if out.is_connected() => Some(out.minimal_quotient().iso_key_bfs()),
+        _ => None,
+    });
+    if ref_key.is_none() {
+        ctx.cap_hit("no reference result for the recorded 192-chamber input: it was NOT run".into());
+        return;
+    }
     let id: Vec<usize> = (0..inp.s.n).collect();
-    check_unit_bound(ctx, &inp, "identity", &id, &None, Some(0));
+    // (the default schedule comes first, so an unrepaired tree reports exactly the recorded case)
+    check_unit_bound(ctx, &inp, "identity", &id, &ref_key, Some(1));
+    // the same defect under affine renumberings d -> a d + b of the same cover (found after the repair was written:
+    // 6 of 30 000 such numberings of this cover lost the torus under the default schedule before the repair)
+    if ctx.nviolations() == 0 {
+        if let Some(c) = corpus().into_iter().find(|(t, _)| t.starts_with("<553.3:")).and_then(|(_, s)| ptc_of(&s.dual())) {
+            let base = Input { name: "pseudo-toroidal cover of the dual of corpus symbol <553.3:4 3:2 4,1 2 3 4,3 4,2 4:4 6,2 6,4>".into(), s: c, ptc: true, rigid: true, corpus: true, known: Some((vec![0, 0, 0], vec![1, 7, 13])) };
+            let n = base.s.n;
+            for (a, b) in [(55usize, 34usize), (125, 96), (83, 119), (109, 190), (85, 170), (79, 121)] {
+                let p: Vec<usize> = (0..n).map(|d| (a * d + b) % n).collect();
+                check_unit_bound(ctx, &base, &format!("affine {}d+{}", a, b), &p, &ref_key, Some(if ctx.tier.is_thorough() { 1 } else { 0 }));
+                if ctx.nviolations() > 0 {
+                    return;
+                }
+            }
+        }
+    }
 }
 
 /// family (b'): manifold covers of every small 3-dimensional symbol with spherical tiles and vertex figures
